@@ -228,6 +228,32 @@ def history(p, lib):
             out['fetches'] += len(reqs)
             check_requests(hist, mode, reqs, pages)
 
+    Gen = lib.type_of(f'.{a["proto_package"]}.{a["rpc"]}Request', a['proto_package'])
+
+    def reuse_pass_sync(hist, client, log_of, set_script, decode):
+        """A non-initial state: the caller lists twice with the *same* request object; the second listing must again
+        start at the caller's page_token and yield every item (the pager must not write into the caller's request)."""
+        if len(hist) < 2:
+            return
+        pages, all_items = make_pages(p, a, hist)
+        greq = Gen(**init)
+        for rnd in (0, 1):
+            mode = f'reuse{rnd}'
+            set_script(pages)
+            try:
+                got_all = [item_view(kind, x) for x in getattr(client, a['py'])(request=greq, timeout=TIMEOUT, metadata=[META])]
+            except BaseException as e:
+                return fail(hist, mode, -1, 'exception', probelib.exc_info(e))
+            if not same_items(got_all, pages):
+                fail(hist, mode, len(pages), 'items', f'{got_all} != {all_items}')
+            reqs, err = decode(log_of())
+            if err:
+                return fail(hist, mode, -1, 'request-undecodable', err)
+            out['fetches'] += len(reqs)
+            check_requests(hist, mode, reqs, pages)
+        if Dreq.FromString(probelib.wire_of(greq)) != exp_init:
+            fail(hist, 'reuse', -1, 'caller-request-mutated', f'the caller\'s request object now reads {probelib.short(Dreq.FromString(probelib.wire_of(greq)))}')
+
     def retry_pass_sync(hist, client, log_of, set_faulty_script, decode):
         """The caller's explicit retry must also govern the later fetches: one transient UNAVAILABLE is injected before
         the last page; with the retry threaded through, the pager still yields every item exactly once."""
@@ -270,6 +296,7 @@ def history(p, lib):
             ch.script = raws[:-1] + [seams.Err(grpc.StatusCode.UNAVAILABLE)] + raws[-1:]
         for hist in all_histories():
             run_sync(hist, client, lambda: ch.log, set_script, lambda log: (grpc_requests(log), None))
+            reuse_pass_sync(hist, client, lambda: ch.log, set_script, lambda log: (grpc_requests(log), None))
             retry_pass_sync(hist, client, lambda: ch.log, set_faulty, None)
             note(hist)
     elif a['client'] == 'rest':
@@ -285,6 +312,7 @@ def history(p, lib):
             seam.script = ok[:-1] + [(503, b'{"error": {"code": 503, "message": "try again", "status": "UNAVAILABLE"}}')] + ok[-1:]
         for hist in all_histories():
             run_sync(hist, client, lambda: seam.log, set_script, rest_requests)
+            reuse_pass_sync(hist, client, lambda: seam.log, set_script, rest_requests)
             retry_pass_sync(hist, client, lambda: seam.log, set_faulty, None)
             note(hist)
     else:
@@ -325,6 +353,25 @@ def history(p, lib):
                     reqs = grpc_requests(ch.log)
                     out['fetches'] += len(reqs)
                     check_requests(hist, mode, reqs, pages)
+                if len(hist) >= 2:
+                    greq = Gen(**init)
+                    for rnd in (0, 1):
+                        mode = f'reuse{rnd}'
+                        ch.log.clear()
+                        ch.script = [pg.SerializeToString() for pg, _ in pages]
+                        try:
+                            pager = await getattr(client, a['py'])(request=greq, timeout=TIMEOUT, metadata=[META])
+                            got_all = [item_view(kind, x) async for x in pager]
+                        except BaseException as e:
+                            fail(hist, mode, -1, 'exception', probelib.exc_info(e))
+                            break
+                        if not same_items(got_all, pages):
+                            fail(hist, mode, len(pages), 'items', f'{got_all} != {all_items}')
+                        reqs = grpc_requests(ch.log)
+                        out['fetches'] += len(reqs)
+                        check_requests(hist, mode, reqs, pages)
+                    if Dreq.FromString(probelib.wire_of(greq)) != exp_init:
+                        fail(hist, 'reuse', -1, 'caller-request-mutated', 'the caller\'s request object was written to')
                 if len(hist) >= 2:
                     import grpc
                     from google.api_core import retry_async, retry as retries, exceptions as core_exc
